@@ -216,6 +216,8 @@ class SX:
         self.warnings = []
         self.call_depth = 0
         self._qcache = {}
+        self._scache = {}
+        self._capture_calls = set()
         self.keep_states = False
         from . import builtins as B
 
@@ -242,16 +244,52 @@ class SX:
             return r
         return r[1]
 
+    def _stringy(self, e):
+        """does the term mention the theory of strings / regular expressions?"""
+        k = e.get_id()
+        hit = self._scache.get(k)
+        if hit is not None and hit[0].eq(e):
+            return hit[1]
+        r = False
+        stack, seen = [e], set()
+        while stack:
+            x = stack.pop()
+            if x.get_id() in seen:
+                continue
+            seen.add(x.get_id())
+            if z3.is_quantifier(x):
+                stack.append(x.body())
+                continue
+            srt = x.sort()
+            if srt.kind() in (z3.Z3_SEQ_SORT, z3.Z3_RE_SORT):
+                r = True
+                break
+            if z3.is_app(x):
+                stack.extend(x.children())
+        self._scache[k] = (e, r)
+        return r
+
     def feasible(self, st, cond=None):
         # path pruning only: quantified hypotheses are left out (fewer hypotheses = never fewer paths)
+        self.nfeas += 1
+        ground = [p for p in st.pc if not self._quantified(p)]
+        if cond is not None and not self._stringy(cond):
+            # a condition that does not speak about strings: decide it without the string facts of the path first (z3's sequence
+            # solver is slow even on satisfiable queries).  unsat with fewer hypotheses is unsat; sat is taken as feasible --
+            # at worst a dead path is explored, whose obligations are then discharged from its contradictory hypotheses.
+            s = z3.Solver()
+            s.set("timeout", self.feas_timeout)
+            for p in ground:
+                if not self._stringy(p):
+                    s.add(p)
+            s.add(cond)
+            return s.check() != z3.unsat
         s = z3.Solver()
         s.set("timeout", self.feas_timeout)
-        for p in st.pc:
-            if not self._quantified(p):
-                s.add(p)
+        for p in ground:
+            s.add(p)
         if cond is not None:
             s.add(cond)
-        self.nfeas += 1
         return s.check() != z3.unsat
 
     def oblige(self, st, name, claim, kind="assert", node=None, note="", props=None):
@@ -1111,6 +1149,9 @@ class SX:
             for vals, s in results:
                 args = vals[: len(node.args)]
                 kwargs = {k.arg: v for k, v in zip(node.keywords, vals[len(node.args):])}
+                if args and id(node) in self._capture_calls:
+                    # a statement-level hint wants the VALUE this call received as its first argument (evaluated once, here)
+                    s.ghost["__arg0__"] = args[0] if not isinstance(args[0], Ref) else self.deref(args[0], s)
                 out.extend(self.call(rf.val, args, kwargs, s, node))
         return out
 
@@ -1171,24 +1212,42 @@ class SX:
     def _ex_with_hints(self, m, stmt, st, snaps, lemmas, asserts=()):
         """ghost code keyed by statement text: snapshot values before, assume proved-lemma instances after"""
         pre = {}
+        arg0_names = []
+        captured = None
         self.spec_mode += 1
         try:
             for name, expr in snaps.items():
                 if expr == "@arg0":
-                    # the first argument of the call this statement makes (e.g. the value being appended)
+                    # the first argument of the call this statement makes (e.g. the value being appended): captured when the call
+                    # itself evaluates it -- evaluating the expression a second time would create different fresh symbols
                     call = stmt.value if isinstance(stmt, ast.Expr) else getattr(stmt, "value", None)
                     while isinstance(call, ast.Await):
                         call = call.value
                     if not (isinstance(call, ast.Call) and call.args):
                         continue
-                    v = self.ev1(call.args[0], st)
+                    arg0_names.append(name)
+                    captured = call
                 else:
                     v = self.ev1(ast.parse(expr, mode="eval").body, st)
-                pre[name] = self.deref(v, st)
+                    pre[name] = self.deref(v, st)
         finally:
             self.spec_mode -= 1
-        outs = m(stmt, st)
+        if captured is not None:
+            self._capture_calls.add(id(captured))
+        try:
+            outs = m(stmt, st)
+        finally:
+            if captured is not None:
+                self._capture_calls.discard(id(captured))
+        base_pre = pre
         for o in outs:
+            pre = dict(base_pre)
+            if arg0_names:
+                got = o.st.ghost.pop("__arg0__", None)
+                if got is None:
+                    continue
+                for nm in arg0_names:
+                    pre[nm] = got
             if o.kind == "normal":
                 for e in lemmas:
                     o.st.assume(self.eval_spec(e, o.st, pre))
